@@ -25,6 +25,8 @@ ASSUMPTIONS = [
     "real arithmetic (rounding not modelled); y strictly between 0 and height; parameters finite, start != end (SShape/ZShape: start < end)",
     "the direction of monotonicity of z(y) is not decided separately (it follows from the identity and the monotonicity of the term)",
 ]
+LEVEL_SCOPE = ("Decides the listed clauses for every order type (piece) over real arithmetic, reporting only definite disagreements; floating-point "
+               "rounding and the clauses listed as undecided are not decided.")
 FLOORS = {"M1": 26, "D3": 12, "V1": 6, "I1": 6, "I2": 6}
 
 
